@@ -142,7 +142,8 @@ def run_cfg(chk, facts, cfg):
         check_rel(f, meth, tols, meth)
     tol_of = {meth: tols for _tr, meth, tols in APPROX}
     no_overrides(chk, PID, facts, sfx, [m.path], 'approx impls of Interval (the *_ne forms follow from the *_eq forms)', traits=('AbsDiffEq', 'RelativeEq', 'UlpsEq', 'Display', 'Debug'),
-                 checkers={(tr.split('::')[-1], meth.replace('_eq', '_ne')): (lambda fnrec, meth=meth: check_rel(fnrec, meth, tol_of[meth], meth.replace('_eq', '_ne') + '(override)', negate=True)) for tr, meth, _t in APPROX})
+                 checkers={(tr.split('::')[-1], meth.replace('_eq', '_ne')): (lambda fnrec, meth=meth: check_rel(fnrec, meth, tol_of[meth], meth.replace('_eq', '_ne') + '(%s)' % ('override' if fnrec.get('impl') is not None and (facts.impls.get(fnrec.get('impl')) or {}).get('trait') else 'inherent'), negate=True)) for tr, meth, _t in APPROX},
+                 shadow_checkers={(tr.split('::')[-1], meth): (lambda fnrec, meth=meth: check_rel(fnrec, meth, tol_of[meth], meth + '(inherent)')) for tr, meth, _t in APPROX})
     if has_approx and cfg == 'default':
         chk.floor('approx-impls', n, 3)
 
